@@ -389,19 +389,17 @@ func (k *ExtendedKey) ECPrivKey() (*bec.PrivateKey, error) {
 // Address converts the extended key to a standard bitcoin pay-to-pubkey-hash
 // address for the passed network.
 func (k *ExtendedKey) Address(net *chaincfg.Params) string {
-	return k.addressFromPublicKeyHash(crypto.Hash160(k.pubKeyBytes()), net.Name == chaincfg.NetworkMain)
+	return k.addressFromPublicKeyHash(crypto.Hash160(k.pubKeyBytes()), net.LegacyPubKeyHashAddrID)
 }
 
 // addressFromPublicKeyHash is copied from the bt.bscript package to remove a small
 // dependency from bk -> bt. Adding this means bk has no dependency on bt.
-func (k *ExtendedKey) addressFromPublicKeyHash(hash []byte, mainnet bool) string {
+func (k *ExtendedKey) addressFromPublicKeyHash(hash []byte, addrID byte) string {
 	// regtest := 111
 	// mainnet: 0
 
 	bb := make([]byte, 1)
-	if !mainnet {
-		bb[0] = 111
-	}
+	bb[0] = addrID
 	// nolint:makezero // ignore
 	bb = append(bb, hash...)
 	b := make([]byte, 0, len(bb)+4)
